@@ -210,7 +210,6 @@ impl Decode for AwarenessUpdate {
             lemma_suffix_skip(s0, dec_u64(s0)->Some_0.1);
             lemma_suffix_refl(s1);
             lemma_dec_list_start(au_item(), s1, len as nat);
-            assert(s1.skip(0) =~= s1);
             lemma_au_view_empty();
         }
     @loop 1 iter=it
@@ -260,9 +259,7 @@ impl Decode for AwarenessUpdate {
         proof {
             lemma_suffix_step(s0, s1, decoder.rest());
             lemma_map_of_len(items);
-            let k = <usize as VarInt>::dec(s0)->Some_0.1;
-            assert(s0.skip(k as int).skip(kk as int) =~= s0.skip((k + kk) as int));
-            lemma_dec_list_done(au_item(), decoder.rest(), items, kk);
+            lemma_counted_finish(au_item(), s0, <usize as VarInt>::dec(s0)->Some_0.1, len as nat, s1, items, kk);
         }
     @*/
 }
